@@ -211,6 +211,9 @@ func runThorough(c *Ctx, spec *propSpec, repo, verif string, extra map[string]an
 		case "MISSED":
 			missed++
 			fmt.Printf("warning: mutant control %q was not reported (%s)\n", r.Name, r.Detail)
+		default:
+			// not-applied / does-not-compile: the control no longer fits the tree and tests nothing
+			fmt.Printf("warning: mutant control %q is %s (%s)\n", r.Name, r.Status, r.Detail)
 		}
 	}
 	extra["mutant_controls"] = results
